@@ -400,7 +400,13 @@ impl Rw {
                         _ => (Node::atom("zz"), Node::atom("zz")),
                     };
                     let inner = if t.chance(1, 2) { Node::list(vec![Node::atom("if-equal"), r.clone(), r.clone(), x]) } else { x };
-                    let wrapped = Node::list(vec![Node::atom("if-equal"), l, r, inner]);
+                    // a true conditional of any of the four documented kinds
+                    let wrapped = match t.pick(5) {
+                        0 => Node::list(vec![Node::atom("if-not-equal"), l, Node::atom("zz-other"), inner]),
+                        1 => Node::list(vec![Node::atom("if-in-list"), l, Node::list(vec![Node::atom("zz-other"), r, Node::atom("zz-third")]), inner]),
+                        2 => Node::list(vec![Node::atom("if-not-in-list"), l, Node::list(vec![Node::atom("zz-other"), Node::atom("zz-third")]), inner]),
+                        _ => Node::list(vec![Node::atom("if-equal"), l, r, inner]),
+                    };
                     *node_at_mut(&mut tmp, &path).unwrap() = wrapped;
                     // a second conditional in the same list, right before it, that expands to
                     // nothing (false) or whose place is taken by two conditionals of one item each
@@ -409,7 +415,15 @@ impl Rw {
                         if let Some(Node::List(pl)) = node_at_mut(&mut tmp, &parent) {
                             // never in head position (the head names the action)
                             if idx >= 1 {
-                                pl.insert(idx, Node::list(vec![Node::atom("if-equal"), Node::atom("zq"), Node::atom("zr"), Node::atom("never-here"), Node::atom("nor-this")]));
+                                // a false conditional of any kind (two items that must not appear), or a
+                                // true one that contributes nothing / is replaced by no item at all
+                                let falsy = match t.pick(5) {
+                                    0 => Node::list(vec![Node::atom("if-not-equal"), Node::atom("zq"), Node::atom("zq"), Node::atom("never-here"), Node::atom("nor-this")]),
+                                    1 => Node::list(vec![Node::atom("if-in-list"), Node::atom("zq"), Node::list(vec![Node::atom("zr"), Node::atom("zs")]), Node::atom("never-here"), Node::atom("nor-this")]),
+                                    2 => Node::list(vec![Node::atom("if-not-in-list"), Node::atom("zq"), Node::list(vec![Node::atom("zr"), Node::atom("zq")]), Node::atom("never-here"), Node::atom("nor-this")]),
+                                    _ => Node::list(vec![Node::atom("if-equal"), Node::atom("zq"), Node::atom("zr"), Node::atom("never-here"), Node::atom("nor-this")]),
+                                };
+                                pl.insert(idx, falsy);
                                 adjacent_cond = true;
                             }
                         }
@@ -722,7 +736,7 @@ impl TypedProp for C16 {
     fn info(&self) -> PropInfo {
         PropInfo {
             level: "exploration",
-            rule: "configs: the whole-grammar generator (plausible profile, and the acceptance-boundary profile for the 'accepted iff' direction). Rewrites, 1-6 per case, at sites chosen by the tape: an action (deflayer cell, defalias value, or an action nested in tap-hold / multi / one-shot / tap-dance / fork / switch) named with defalias; an atom or list inside an action (of a deflayer, defalias, defvirtualkeys / deffakekeys, defchords or defchordsv2 entry) named with defvar (directly, through a second variable, built with concat); an action (also a virtual key's) wrapped into a one-parameter deftemplate and expanded with template-expand / t!, with an atom or a list as argument, optionally under a true if-equal and / or with a true if-equal (or a nested pair of them) around an action nested in the body; a top-level form moved into an included file (name bare, quoted, or quoted with a space in it); in a template body a false if-equal placed right before a true one in the same list; a top-level form wrapped in (platform (linux ..)); a deflayer expressed as the deflayermap listing every defsrc key, or with `_` standing for its most frequent action. Oracle (metamorphic, both texts through the real parser): acceptance agrees; when accepted the layer tables, key outputs, mapped keys, overrides, sequences, options, virtual keys and chords are identical and three random histories give identical timestamped output. Non-trivial: >= 2 different rewrite kinds applied. Distinct: hash of the case.".into(),
+            rule: "configs: the whole-grammar generator (plausible profile, and the acceptance-boundary profile for the 'accepted iff' direction). Rewrites, 1-6 per case, at sites chosen by the tape: an action (deflayer cell, defalias value, or an action nested in tap-hold / multi / one-shot / tap-dance / fork / switch) named with defalias; an atom or list inside an action (of a deflayer, defalias, defvirtualkeys / deffakekeys, defchords or defchordsv2 entry) named with defvar (directly, through a second variable, built with concat); an action (also a virtual key's) wrapped into a one-parameter deftemplate and expanded with template-expand / t!, with an atom or a list as argument, optionally under a true if-equal and / or with a true if-equal (or a nested pair of them) around an action nested in the body; a top-level form moved into an included file (name bare, quoted, or quoted with a space in it); in a template body a false conditional placed right before a true one in the same list (each of the four kinds if-equal / if-not-equal / if-in-list / if-not-in-list); a top-level form wrapped in (platform (linux ..)); a deflayer expressed as the deflayermap listing every defsrc key, or with `_` standing for its most frequent action. Oracle (metamorphic, both texts through the real parser): acceptance agrees; when accepted the layer tables, key outputs, mapped keys, overrides, sequences, options, virtual keys and chords are identical and three random histories give identical timestamped output. Non-trivial: >= 2 different rewrite kinds applied. Distinct: hash of the case.".into(),
             assumptions: vec!["rewrites are applied only where the documentation allows the construct (variables inside actions, aliases as actions, include/platform at top level)".into()],
             extra: BTreeMap::new(),
         }
